@@ -99,6 +99,31 @@ fn fnv(h: &mut u64, bytes: &[u8]) {
     }
 }
 
+/// The RoundedSquare layer gets stroke attributes only if a comparison of two function
+/// pointers (`command as usize == Shape::rounded_square as usize`, src/convert/svg.rs) comes
+/// out equal. Function addresses are not guaranteed unique or stable (rustc warns about it, and
+/// Miri deliberately gives every cast a fresh address), so the presence of the stroke
+/// attributes legitimately differs between an interpreted and a native run. No property speaks
+/// about them; they are removed before hashing so that the differential check stays sound.
+pub fn strip_stroke(svg: &str) -> String {
+    const PAT: &str = "\" stroke-width=\".3\" stroke-linejoin=\"round\" stroke=\"";
+    let mut out = String::with_capacity(svg.len());
+    let mut rest = svg;
+    while let Some(i) = rest.find(PAT) {
+        out.push_str(&rest[..i]);
+        let after = &rest[i + PAT.len()..];
+        match after.find('"') {
+            Some(q) => rest = &after[q..],
+            None => {
+                rest = after;
+                break;
+            }
+        }
+    }
+    out.push_str(rest);
+    out
+}
+
 /// Execute one job; returns a digest of everything observable.
 pub fn exec(job: &SJob) -> u64 {
     let mut h = 0xcbf2_9ce4_8422_2325u64;
@@ -133,7 +158,7 @@ pub fn exec(job: &SJob) -> u64 {
             }
             if job.render & 2 != 0 {
                 let svg = SvgBuilder::default().margin(job.margin).shape(SHAPES[job.shape]).to_str(&qr);
-                fnv(&mut h, svg.as_bytes());
+                fnv(&mut h, strip_stroke(&svg).as_bytes());
             }
             #[cfg(feature = "image")]
             if job.render & 4 != 0 {
